@@ -610,4 +610,7 @@ fn run(e: &Engine) {
         });
         e.count_excluded("KF2 (compact, float literal of >= 20 significant digits, one ulp off)", e.label_count("excluded: known finding KF2 (compact, >= 20 digits, one ulp)"));
     }
+    // keyword chimeras as character data for bool, f32, f64
+    let chim: Vec<Case> = crate::model::mnemonic::keyword_chimeras().into_iter().flat_map(|w| [Case::BoolWord { word: w.clone() }, Case::FloatWord { single: true, word: w.clone() }, Case::FloatWord { single: false, word: w }]).collect();
+    e.fixed("keyword-chimeras", chim, check);
 }
